@@ -24,7 +24,9 @@ def corpus():
     msgs = [b"ZERO", b"ZERO 1", b"ZERO (@1,2)", b"ZERO;ONE 1;OPT 1,2,3", b"ONE", b"ONE;ZERO", b"ONE 1,2;ZERO", b"OPT 1;ZERO;OPT 1,'x';ZERO",
             b"OPT;ZERO", b"CONF 5,(@6)", b"CONF? 5", b"CONF:VOLT 5,6", b"CONF 1;ZERO", b"ONE #H1F;ONE 'a;b';ONE #13a;b;ZERO", b"ONE 1,", b"OPT 1,;ZERO",
             b"ONE? 1;ZERO?\n", b"ONE 1 ;ZERO", b"ONE 1 V;ZERO", b"OPT 1,2,3,4", b"ZERO ;ONE 2",
-            b"RO 7,ABC;ZERO 9", b"RO 7,1;ZERO", b"RO 300;ZERO", b"RO? ABC;ZERO", b"RO? 1 V;ZERO", b"RO 7;ZERO", b"RO 7,'x';ZERO"]
+            b"RO 7,ABC;ZERO 9", b"RO 7,1;ZERO", b"RO 300;ZERO", b"RO? ABC;ZERO", b"RO? 1 V;ZERO", b"RO 7;ZERO", b"RO 7,'x';ZERO",
+            b"ONE (1,2;ZERO 3)", b"ZERO;ONE (1;ZERO);ZERO", b"ONE 'a;b',(1;ZERO", b"ONE (@1;OPT 2),3", b"OPT 1,(2;ZERO),3;ZERO", b"ZERO #H1F", b"ZERO? #Q17;ZERO", b"ZERO #B1,2",
+            b"ONE #10,5", b"ONE #10;ZERO 2", b"OPT #10,#200,#10", b"ONE #10 ;ZERO", b"ONE #10"]
     return [L("v", sub, sc, [m]) for m in msgs]
 
 
